@@ -90,6 +90,8 @@ def check(pid, tier):
     # 2. regenerate tables from the source
     regen = build.regenerate(bindir)
     cov["regenerated"] = regen
+    if build.ALT:
+        cov["alt_repo"] = build.REPO
     # 3. kernel-check the theorems (incremental), build the driver
     targets = P.thm_modules + ["model"]
     ok, log, dt = build.lake_build(targets)
@@ -111,6 +113,10 @@ def check(pid, tier):
                     "theorems": aud, "forbidden_tokens": forb})
         if bad or forb:
             proof_broken = "audit failed: %s %s" % ([a["name"] for a in bad], forb[:5])
+    if regen.get("alt_differs") and not proof_broken:
+        # scratch-checkout mode: the tables/layout regenerated from that source differ from the ones
+        # the theorems were checked against (in /repo mode the file is rewritten and re-proved)
+        proof_broken = "tables / layout regenerated from %s differ from Generated/Tables.lean (see %s)" % (build.REPO, os.path.join(os.path.dirname(build.HARNESS), "Tables.lean"))
     if tier == "thorough" and ok:
         # independent re-check of the compiled theorem modules
         lc = []
